@@ -58,6 +58,18 @@ void drv_c14_kern(int tier, unsigned long seed, const char *extra) {
         MPN_COPY(d, a, n); fn_begin("mpn_addsub_n"); fn_in_limbs("a", d, n); fn_in_limbs("b", b, n); fn_in_limbs("c", c, n); fn_in_int("n", n); fn_mid(); ci = mpn_addsub_n(d, d, b, c, n); fn_out_limbs("r", d, n); fn_out_int("cyi", ci); fn_end();
         MPN_COPY(d, c, n); fn_begin("mpn_addadd_n"); fn_in_limbs("a", a, n); fn_in_limbs("b", b, n); fn_in_limbs("c", d, n); fn_in_int("n", n); fn_mid(); cy = mpn_addadd_n(d, a, b, d, n); fn_out_limbs("r", d, n); fn_out_u64("cy", cy); fn_end(); }
       { mp_limb_t ret; fn_begin("mpn_sumdiff_n"); fn_in_limbs("a", a, n); fn_in_limbs("b", b, n); fn_in_int("n", n); fn_mid(); gb_fill(r, n); gb_fill(d, n); ret = mpn_sumdiff_n(r, d, a, b, n); fn_out_limbs("s", r, n); fn_out_limbs("d", d, n); fn_out_int("ret", (long)ret); fn_end(); }
+      /* error-term kernels (mpn_add_err1_n ...): r = a +- b +- cy, the carry out, and the two-limb sums of the y limbs selected by the carries; both carry-in
+         values, equal operands (the borrow chain runs through), destination = either source */
+      { int w, cin, ip; mp_limb_t e[4]; mp_ptr y1 = gb_get(5, n, place), y2 = gb_get(6, n, place);
+        rnd_limbs(y1, n, (kind + 2) % NKINDS); rnd_limbs(y2, n, (kind + 4) % NKINDS);
+        for (w = 0; w < 4; w++) for (cin = 0; cin < 2; cin++) for (ip = 0; ip < 3; ip++) { static const char *nm[] = {"mpn_add_err1_n", "mpn_sub_err1_n", "mpn_add_err2_n", "mpn_sub_err2_n"};
+          mp_srcptr s1 = a, s2 = (ip == 2 || kind == 6) && cin ? a : b; mp_ptr dst = r; mp_limb_t ret;
+          if ((n + w + cin + ip) % 3 == 1 && n > 8) continue;
+          if (ip == 1) { MPN_COPY(d, a, n); s1 = d; dst = d; if (s2 == a) s2 = d; }
+          fn_begin(nm[w]); fn_in_limbs("a", s1, n); fn_in_limbs("b", s2, n); fn_in_limbs("y1", y1, n); fn_in_limbs("y2", y2, n); fn_in_int("n", n); fn_in_int("cy", cin); fn_mid();
+          if (dst == r) gb_fill(r, n); e[0] = e[1] = e[2] = e[3] = 0x5a5a;
+          ret = w == 0 ? mpn_add_err1_n(dst, s1, s2, e, y1, n, cin) : w == 1 ? mpn_sub_err1_n(dst, s1, s2, e, y1, n, cin) : w == 2 ? mpn_add_err2_n(dst, s1, s2, e, y1, y2, n, cin) : mpn_sub_err2_n(dst, s1, s2, e, y1, y2, n, cin);
+          fn_out_limbs("r", dst, n); fn_out_u64("ret", ret); fn_out_limbs("e1", e, 2); fn_out_limbs("e2", e + 2, 2); fn_end(); } }
     }
   }
 }
